@@ -17,5 +17,8 @@ def check(ctx):
     kernel.analyze(ctx, {"C12.d"})
     # 'unaffected by peeks': purity of the peek path (shared with C11)
     cursor.analyze(ctx, {"C11.a"})
+    # 'unaffected by set_mode on the Scanner / by earlier iterations': every new iterator works on a clone reset to mode 0
+    from . import pC06
+    pC06.fresh_iterator_rules(ctx)
     from .common import cache_foundation
     cache_foundation(ctx)
